@@ -6,11 +6,11 @@ import PyaModel.Generated.OptionsRegistry
 in : `{"fs": [[name, TABLE], …], "main": name, "cli": [[opt, VAL], …], "q": [[opt, "a.b"], …]}`
        TABLE = `[[key, TV], …]` (ordered)   TV = true | false | int | "str" | {"f": 0|1} | [TV, …] | {"t": TABLE}
        VAL = true | false | int | ["s", …]        module path "" = the empty path
-out: `parse=<ok|ERR:kind> valid=<0|1> SD=<stack classes|-> || m=<val|ERR> s=<val|REJECT> D=<classes|-> || …`
+out: `parse=<ok|ERR:kind> valid=<0|1> extInOv=<0|1> || m=<val|ERR> s=<val|REJECT> D=<classes|-> || …`
        m = model (`Pya.effective`), s = spec (`Pya.specEffective`), D = exception classes of the query
      unparseable input: `bad-op`
 -/
-open Lean Pya
+open Lean Pya Pya.C18
 
 partial def tvOfJson (j : Json) : Option TV :=
   match j with
@@ -55,6 +55,7 @@ def showErr : CfgErr → String
   | .topLevelModule => "topLevelModule" | .extendNotStr => "extendNotStr" | .cannotOpen => "cannotOpen"
   | .recursive => "recursive" | .nestedOverrides => "nestedOverrides" | .overridesNotList => "overridesNotList"
   | .overrideNotDict => "overrideNotDict" | .overrideModule => "overrideModule"
+  | .disableNotBool => "disableNotBool"
   | .unknownKey k => s!"unknownKey:{k}" | .badValue o => s!"badValue:{o}" | .unmodelled o => s!"unmodelled:{o}"
   | .fuel => "fuel"
 
@@ -91,10 +92,8 @@ def handle (line : String) : String :=
       let parsed := parseFile reg fs fuel main 0 []
       let stack? := specStack fs fuel main []
       let valid := match stack? with | some st => st.all (specValidBody reg) | none => false
-      let sd := match stack? with
-        | some st => classes [("boolAsInt", D18_boolAsInt reg st), ("disableAllNotBool", D18_disableAllNotBool st)]
-        | none => "-"
-      let head := s!"parse={match parsed with | .ok _ => "ok" | .error e => "ERR:" ++ showErr e} valid={if valid then 1 else 0} SD={sd}"
+      let dom := match stack? with | some st => extendInOverride st | none => false
+      let head := s!"parse={match parsed with | .ok _ => "ok" | .error e => "ERR:" ++ showErr e} valid={if valid then 1 else 0} extInOv={if dom then 1 else 0}"
       let outs := qs.map fun (d, mod) =>
         let m := match parsed with
           | .ok insts => showVal (getValueFor d (cliInsts cli ++ insts) mod)
@@ -103,9 +102,7 @@ def handle (line : String) : String :=
           | some v => showVal v
           | none => "REJECT"
         let dc := match stack? with
-          | some st => classes [("pathListNoConcat", D18_pathListNoConcat d),
-                                ("lostPriority", D18_lostPriority d mod st),
-                                ("concatDefaultTwice", D18_concatDefaultTwice d)]
+          | some _ => classes [("pathListNoConcat", D18_pathListNoConcat d)]
           | none => "-"
         s!"m={m} s={s} D={dc}"
       " || ".intercalate (head :: outs)
